@@ -187,7 +187,10 @@ func filesUnder(dir string) []string {
 	return out
 }
 
-var groupSeq int
+var (
+	groupSeq  int
+	childBase = 1
+)
 
 func setupGroup(seed int64, scratch string, c Case) (*group, error) {
 	n := c.D + c.P
@@ -337,7 +340,6 @@ func allShards(n int) []int {
 func get(st sop.BlobStore, id sop.UUID, want []byte) (outcome, msg string, gotLen int) {
 	var got []byte
 	var err error
-	base := runtime.NumGoroutine()
 	func() {
 		defer func() {
 			if x := recover(); x != nil {
@@ -346,7 +348,7 @@ func get(st sop.BlobStore, id sop.UUID, want []byte) (outcome, msg string, gotLe
 		}()
 		got, err = st.GetOne(context.Background(), table, id)
 	}()
-	settle(base)
+	settle()
 	switch {
 	case outcome == "panic":
 		return
@@ -362,9 +364,10 @@ func get(st sop.BlobStore, id sop.UUID, want []byte) (outcome, msg string, gotLe
 // panics first runs errgroup's deferred Done (so GetOne returns normally, with that shard treated
 // as unreadable) and only then kills the process; without this wait the death would be logged
 // against the NEXT case. A dying goroutine never leaves, so the child simply dies in here.
+// The base line is the goroutine count at child start, before any library call.
 // Not part of any verdict: if something else keeps a goroutine alive the wait gives up after ~3 s.
-func settle(base int) {
-	for i := 0; runtime.NumGoroutine() > base && i < 30000; i++ {
+func settle() {
+	for i := 0; runtime.NumGoroutine() > childBase && i < 30000; i++ {
 		if i < 100 {
 			runtime.Gosched()
 		} else {
@@ -523,7 +526,6 @@ func runWrite(seed int64, scratch string, c Case) (Result, error) {
 	}
 	id, data := blobID(seed, c.D, c.P, c.Size), BlobBytes(seed, c.D, c.P, c.Size)
 	var addErr error
-	base := runtime.NumGoroutine()
 	func() {
 		defer func() {
 			if x := recover(); x != nil {
@@ -532,7 +534,7 @@ func runWrite(seed int64, scratch string, c Case) (Result, error) {
 		}()
 		addErr = st.Add(context.Background(), payload(id, data))
 	}()
-	settle(base)
+	settle()
 	if res.Outcome == "panic" {
 		return res, nil
 	}
@@ -590,6 +592,7 @@ func ChildMain(args []string) int {
 		return fail("%v", err)
 	}
 	scratch := args[4]
+	childBase = runtime.NumGoroutine()
 	// Leftovers of a predecessor that died in this batch's folder are dropped first.
 	os.RemoveAll(scratch)
 	if err := os.MkdirAll(scratch, 0o755); err != nil {
